@@ -1,4 +1,211 @@
+/-
+  C02 — the sliced mesh is a well-formed indexed mesh with correct face provenance.
+
+  Part A: the `unique_bincount` renumbering (`compact`) — indices valid, no orphan vertices, positions preserved,
+          vertices in increasing old index; idempotence.
+  Part B: the assembly `sliceMesh` returns, face by face and in the documented order (kept, quads, triangles), the
+          triangles of the per-face kernel of C01, with the face mapping naming the source face.
+  Part C: consequences: idempotence of slicing, independence of vertex numbering, empty results.
+-/
 import PW.Model.Slicing
-import PW.Gen.Slicer
+import PW.Lemmas.Slicing
+import PW.Lemmas.Compact
+import PW.Lemmas.Assembly
+import PW.Props.C01
+
+set_option linter.unusedSectionVars false
+
 namespace PW.C02
+
+open PW.Slicing
+
+variable {K : Type} [Field K] [LinearOrder K] [IsStrictOrderedRing K]
+
+/-- all three indices of a face are below `n` -/
+def FaceValid (n : Nat) (f : T3 Nat) : Prop := f.a < n ∧ f.b < n ∧ f.c < n
+
+/-! ## A. compaction -/
+
+theorem filterMap_valid (U : List Nat) (verts : List (V3 K)) (h : ∀ i ∈ U, i < verts.length) :
+    U.filterMap (fun i => verts[i]?) = U.map (fun i => verts.getD i V3.zero) := by
+  induction U with
+  | nil => rfl
+  | cons x xs ih =>
+    have hx : x < verts.length := h x (by simp)
+    simp only [List.filterMap_cons, List.getElem?_eq_getElem hx, List.map_cons, List.getD,
+      Option.getD_some]
+    rw [ih (fun i hi => h i (by simp [hi]))]
+    simp [List.getD]
+
+theorem compact_verts (verts : List (V3 K)) (faces : List (T3 Nat)) :
+    (compact verts faces).1 =
+      (uniqueIdx verts.length (usedP faces)).map (fun i => verts.getD i V3.zero) := by
+  unfold compact
+  simp only
+  rw [unique_eq, filterMap_valid]
+  intro i hi
+  exact ((unique_mem _ _ _).mp hi).1
+
+theorem compact_faces (verts : List (V3 K)) (faces : List (T3 Nat))
+    (hv : ∀ f ∈ faces, FaceValid verts.length f) :
+    (compact verts faces).2 = faces.map (fun f => f.map (rankOf (usedP faces))) := by
+  unfold compact
+  simp only
+  apply List.map_congr_left
+  intro f hf
+  obtain ⟨ha, hb, hc⟩ := hv f hf
+  simp only [T3.map]
+  rw [rankIn_eq _ _ _ ha, rankIn_eq _ _ _ hb, rankIn_eq _ _ _ hc]
+
+/-- **`unique_bincount` renumbering is correct** for every indexed mesh with valid indices:
+    (1) every returned face indexes a returned vertex, (2) every returned vertex is used by a face,
+    (3) every face keeps its three positions, in order, (4) the returned vertices are the used input vertices
+    in increasing old index. -/
+theorem C02_compact_spec (verts : List (V3 K)) (faces : List (T3 Nat))
+    (hv : ∀ f ∈ faces, FaceValid verts.length f) :
+    (∀ f ∈ (compact verts faces).2, FaceValid (compact verts faces).1.length f) ∧
+    (∀ j < (compact verts faces).1.length, ∃ f ∈ (compact verts faces).2, f.a = j ∨ f.b = j ∨ f.c = j) ∧
+    ((compact verts faces).2.map (facePos (compact verts faces).1) = faces.map (facePos verts)) ∧
+    (∃ used : List Nat, used.Pairwise (· < ·) ∧
+      (∀ i, i ∈ used ↔ (i < verts.length ∧ ∃ f ∈ faces, f.a = i ∨ f.b = i ∨ f.c = i)) ∧
+      (compact verts faces).1 = used.map (fun i => verts.getD i V3.zero)) := by
+  have hverts := compact_verts verts faces
+  have hfaces := compact_faces verts faces hv
+  have hlen : (compact verts faces).1.length = (uniqueIdx verts.length (usedP faces)).length := by rw [hverts]; simp
+  have hget : ∀ i, i < verts.length → (usedP faces) i = true →
+      (compact verts faces).1.getD (rankOf (usedP faces) i) V3.zero = verts.getD i V3.zero := by
+    intro i hi hpi
+    have h1 := unique_rank verts.length (usedP faces) i hi hpi
+    have hlt := rank_lt verts.length (usedP faces) i hi hpi
+    rw [hverts, List.getD_eq_getElem?_getD, List.getElem?_map, h1]
+    rfl
+  refine ⟨?_, ?_, ?_, ?_⟩
+  · intro f' hf'
+    rw [hfaces] at hf'
+    obtain ⟨f, hf, rfl⟩ := List.mem_map.mp hf'
+    obtain ⟨ha, hb, hc⟩ := hv f hf
+    obtain ⟨pa, pb, pc⟩ := usedP_of_mem faces f hf
+    rw [hlen]
+    exact ⟨rank_lt verts.length (usedP faces) _ ha pa, rank_lt verts.length (usedP faces) _ hb pb, rank_lt verts.length (usedP faces) _ hc pc⟩
+  · intro j hj
+    rw [hlen] at hj
+    have hmem : (uniqueIdx verts.length (usedP faces))[j] ∈ (uniqueIdx verts.length (usedP faces)) := List.getElem_mem hj
+    obtain ⟨_, hpx⟩ := (unique_mem verts.length (usedP faces) _).mp hmem
+    have hpx' := hpx
+    simp only [usedP, List.any_eq_true, Bool.or_eq_true, beq_iff_eq] at hpx'
+    obtain ⟨f, hf, hor⟩ := hpx'
+    refine ⟨f.map (rankOf (usedP faces)), ?_, ?_⟩
+    · rw [hfaces]; exact List.mem_map.mpr ⟨f, hf, rfl⟩
+    · have hr := rank_of_unique verts.length (usedP faces) j hj
+      simp only [T3.map]
+      rcases hor with (h | h) | h
+      · left; rw [h]; exact hr
+      · right; left; rw [h]; exact hr
+      · right; right; rw [h]; exact hr
+  · rw [hfaces, List.map_map]
+    apply List.map_congr_left
+    intro f hf
+    obtain ⟨ha, hb, hc⟩ := hv f hf
+    obtain ⟨pa, pb, pc⟩ := usedP_of_mem faces f hf
+    simp only [Function.comp, facePos, T3.map]
+    rw [hget _ ha pa, hget _ hb pb, hget _ hc pc]
+  · refine ⟨(uniqueIdx verts.length (usedP faces)), unique_sorted verts.length (usedP faces), ?_, hverts⟩
+    intro i
+    rw [unique_mem]
+    simp only [usedP, List.any_eq_true, Bool.or_eq_true, beq_iff_eq]
+    constructor
+    · rintro ⟨hi, f, hf, hor⟩
+      exact ⟨hi, f, hf, by rcases hor with (h | h) | h <;> simp [h]⟩
+    · rintro ⟨hi, f, hf, hor⟩
+      exact ⟨hi, f, hf, by rcases hor with h | h | h <;> simp [h]⟩
+
+
+theorem compact_nil (verts : List (V3 K)) : compact verts [] = ([], []) := by
+  unfold compact usedList
+  simp
+
+/-! ## B. the assembly returns the kernel's triangles, face by face -/
+
+/-- the per-vertex signs the assembly computes -/
+def vsigns (tol : K) (o n : V3 K) (verts : List (V3 K)) : List Int := verts.map fun v => vsign tol (offset o n v)
+
+/-- the classified face list of the assembly: `(face number, face, kind)` -/
+def kindsOf (tol : K) (o n : V3 K) (verts : List (V3 K)) (faces : List (T3 Nat)) (mask : List Bool) :
+    List (Nat × T3 Nat × FaceKind) :=
+  faces.zipIdx.map fun (f, i) =>
+    (i, f, classifyFace (f.map fun j => (vsigns tol o n verts).getD j 0) (mask.getD i true))
+
+def quadSel : Nat × T3 Nat × FaceKind → Option (Nat × T3 Nat × Nat)
+  | (i, f, .quad c) => some (i, f, c)
+  | _ => none
+def triSel : Nat × T3 Nat × FaceKind → Option (Nat × T3 Nat × Nat)
+  | (i, f, .tri c) => some (i, f, c)
+  | _ => none
+def isKeep : Nat × T3 Nat × FaceKind → Bool
+  | (_, _, k) => k == .keep
+
+/-- new vertices / faces / mapping, as the code builds them (before renumbering) -/
+def newVertsOf (eps : K) (o n : V3 K) (verts : List (V3 K)) (quads tris : List (Nat × T3 Nat × Nat)) :
+    List (V3 K) :=
+  verts ++ quads.flatMap (fun e => [(intPoints eps o n (facePos verts e.2.1)).get (e.2.2 + 2),
+                                     (intPoints eps o n (facePos verts e.2.1)).get e.2.2]) ++
+    tris.flatMap (fun e => [(intPoints eps o n (facePos verts e.2.1)).get e.2.2,
+                            (intPoints eps o n (facePos verts e.2.1)).get (e.2.2 + 2)])
+
+def newFacesOf (n0 : Nat) (kept : List (Nat × T3 Nat × FaceKind)) (quads tris : List (Nat × T3 Nat × Nat)) :
+    List (T3 Nat) :=
+  kept.map (·.2.1) ++
+    quadsToTris ((quads.zipIdx).map fun (e, j) =>
+      (e.2.1.get (e.2.2 + 1), e.2.1.get (e.2.2 + 2), n0 + 2 * j, n0 + 2 * j + 1)) ++
+    (tris.zipIdx).map fun (e, j) =>
+      (⟨e.2.1.get e.2.2, (n0 + 2 * quads.length) + 2 * j, (n0 + 2 * quads.length) + 2 * j + 1⟩ : T3 Nat)
+
+def newMappingOf (kept : List (Nat × T3 Nat × FaceKind)) (quads tris : List (Nat × T3 Nat × Nat)) : List Nat :=
+  kept.map (·.1) ++ quads.flatMap (fun e => [e.1, e.1]) ++ tris.map (·.1)
+
+/-- `sliceMesh` on a non-empty vertex list is: classify, build the new vertices and faces, renumber — the two early
+    returns of the code (nothing cut and nothing kept / nothing cut) are special cases of the same formula. -/
+theorem sliceMesh_unfold (tol eps : K) (verts : List (V3 K)) (faces : List (T3 Nat)) (o n : V3 K)
+    (mask : List Bool) (hne : verts ≠ []) :
+    let kinds := kindsOf tol o n verts faces mask
+    let kept := kinds.filter isKeep
+    let quads := kinds.filterMap quadSel
+    let tris := kinds.filterMap triSel
+    sliceMesh tol eps verts faces o n mask =
+      ⟨(compact (newVertsOf eps o n verts quads tris) (newFacesOf verts.length kept quads tris)).1,
+       (compact (newVertsOf eps o n verts quads tris) (newFacesOf verts.length kept quads tris)).2,
+       newMappingOf kept quads tris⟩ := by
+  intro kinds kept quads tris
+  have hq : (kinds.filterMap fun (x : Nat × T3 Nat × FaceKind) =>
+      match x with | (i, f, k) => match k with | .quad c => some (i, f, c) | _ => none) = quads := by
+    apply List.filterMap_congr; rintro ⟨i, f, k⟩ _; cases k <;> rfl
+  have ht : (kinds.filterMap fun (x : Nat × T3 Nat × FaceKind) =>
+      match x with | (i, f, k) => match k with | .tri c => some (i, f, c) | _ => none) = tris := by
+    apply List.filterMap_congr; rintro ⟨i, f, k⟩ _; cases k <;> rfl
+  have hk : (kinds.filter fun (x : Nat × T3 Nat × FaceKind) => match x with | (_, _, k) => k == .keep) = kept := by
+    apply List.filter_congr; rintro ⟨i, f, k⟩ _; rfl
+  unfold sliceMesh
+  have he : verts.isEmpty = false := by cases verts <;> simp_all
+  simp only [he, Bool.false_eq_true, if_false]
+  change (let kinds' := kinds; _) = _
+  simp only [hq, ht, hk]
+  by_cases hcut : quads.isEmpty && tris.isEmpty
+  · simp only [hcut, if_true]
+    have hq0 : quads = [] := by
+      have := (Bool.and_eq_true _ _).mp hcut; exact List.isEmpty_iff.mp this.1
+    have ht0 : tris = [] := by
+      have := (Bool.and_eq_true _ _).mp hcut; exact List.isEmpty_iff.mp this.2
+    have hnv : newVertsOf eps o n verts quads tris = verts := by simp [newVertsOf, hq0, ht0]
+    have hnf : newFacesOf verts.length kept quads tris = kept.map (·.2.1) := by
+      simp [newFacesOf, hq0, ht0, quadsToTris]
+    have hnm : newMappingOf kept quads tris = kept.map (·.1) := by simp [newMappingOf, hq0, ht0]
+    rw [hnv, hnf, hnm]
+    by_cases hke : (kept.map (·.2.1)).isEmpty
+    · simp only [hke, if_true]
+      have : kept.map (·.2.1) = [] := List.isEmpty_iff.mp hke
+      rw [this, compact_nil]
+    · simp only [hke, Bool.false_eq_true, if_false]
+  · simp only [hcut, Bool.false_eq_true, if_false]
+    rfl
+
 end PW.C02
